@@ -64,20 +64,40 @@ def run(chk, facts, tier):
         for c in fn.body.calls('set_start_address'):
             ok = is_name(c.args()[0], p) and any(op == '!=' and cval(r) == 0 and not isinstance(l, int) and strip_casts(l).is_call('page_acceptable') and is_name(strip_casts(l).args()[0], p) for l, op, r in guard_atoms(fn, c))
             chk.instance('region-check-before-use', fn, 'set_start_address(%s) for the following page' % p, ok, '' if ok else 'data that runs past the first page is flashed without a region check', node=c, key='next page')
+    from .lib.linear import Lin, lin
     for fn in variants(facts, CT + 'page_acceptable'):
         a = fn.params[0]['n']
-        ps, pe = local_init(fn, 'page_start'), local_init(fn, 'page_end')
-        ok = ps is not None and pe is not None
+        calls = fn.body.calls('acceptable')
+        ok = len(calls) == 1 and len(calls[0].args()) == 2
+        why = 'page test does not consult the memory regions'
         if ok:
-            b = as_binop(ps)
-            ok = b is not None and b[0] == '-' and is_name(b[1], a) and as_binop(b[2]) is not None and as_binop(b[2])[0] == '%' and is_name(as_binop(b[2])[1], a) and mentions(b[2], 'PageSize') or (as_binop(b[2]) is not None and as_binop(b[2])[2].v is not None)
-            e = as_binop(pe)
-            ok = ok and e is not None and e[0] == '+' and is_name(e[1], 'page_start') and (mentions(e[2], 'PageSize') or e[2].v is not None)
-            r = fn.returns()
-            ats = atoms(ret_value(r[0]), True) if len(r) == 1 else []
-            ok = ok and any(op == '<' and is_name(l, 'page_start') and is_name(rr, 'page_end') for l, op, rr in ats if not isinstance(rr, int)) and \
-                any(not isinstance(l, int) and strip_casts(l).is_call('acceptable') and [x.text() for x in strip_casts(l).args()] == ['page_start', 'page_end'] for l, op, rr in ats)
-        chk.instance('page-check-covers-page', fn, 'page_acceptable', bool(ok), '' if ok else 'the page test does not cover the whole page that will be read and flashed', key='page_acceptable')
+            def resolve(n, depth=0):
+                n = strip_casts(n)
+                if n.k in REF_KINDS and n.d.get('local') and depth < 4:
+                    i = local_init(fn, n.n, optional=True)
+                    if i is not None:
+                        return resolve(i, depth + 1)
+                return n
+            s0, e0 = resolve(calls[0].args()[0]), resolve(calls[0].args()[1])
+            b = as_binop(s0)
+            start_ok = b is not None and b[0] == '-' and is_name(b[1], a) and as_binop(b[2]) is not None and as_binop(b[2])[0] == '%' and is_name(as_binop(b[2])[1], a)
+            # end - start must be exactly PageSize (acceptable() takes an exclusive end)
+            eb = as_binop(e0)
+            size = None
+            if eb and eb[0] == '+':
+                other = eb[2] if same_expr(resolve(eb[1]), s0) or (strip_casts(eb[1]).k in REF_KINDS and same_expr(resolve(eb[1]), s0)) else None
+                if other is not None:
+                    size = other
+            page = as_binop(b[2])[2] if start_ok else None
+            end_ok = size is not None and page is not None and same_expr(size, page)
+            ok = start_ok and end_ok
+            why = 'the tested range is not exactly the page [a - a %% PageSize, + PageSize): %s .. %s' % (s0.text()[:40], e0.text()[:40])
+            if ok:
+                r = fn.returns()
+                ats = atoms(ret_value(r[0]), True) if len(r) == 1 else []
+                ok = any(op == '<' and same_expr(resolve(l), s0) for l, op, rr in ats if not isinstance(rr, int) and not isinstance(l, int))
+                why = 'address wrap-around (page_start < page_end) is not excluded'
+        chk.instance('page-check-covers-page', fn, 'page_acceptable', bool(ok), '' if ok else why, key='page_acceptable')
     for fn in variants(facts, CT + 'request_error', chk):
         st = {target_name(tgt): val for tgt, op, val, s in stores(fn.body)}
         ok = cval(st.get('in_flash_mode')) == 0 and strip_casts(st.get('opcode')).n == 'undefined_opcode' if 'opcode' in st and 'in_flash_mode' in st else False
